@@ -44,10 +44,11 @@ static const char *VAL[] = {
 namespace {
 constexpr int       MAXT = 4;
 Array<TagBit>      *cache;
-Value<char>        *vals[3];
+Value<char>        *vals[4];
+Value<char>        *ptees[3]; // what the pointer members of value 3 point at
 StringStream<char> *out[MAXT];
 std::string         ref[MAXT];
-std::string         cache_dump0, val_dump0[3];
+std::string         cache_dump0, val_dump0[4];
 const char         *tpl;
 SizeT               tpl_len;
 int                 nthreads, cfg_tpl, cfg_combo;
@@ -145,24 +146,39 @@ std::string value_dump(const Value<char> &v) {
     return std::string(ss.First() ? ss.First() : "", ss.Length());
 }
 
-int n_configs() { return (int)(sizeof(TPL) / sizeof(TPL[0])) * 3; }
+// value 3 is value 0 with "list", "obj" and "people" replaced by pointers to separately owned values (the sets of the loops are
+// then reached through SetPointerToValue members, as an application that shares sub-trees between documents has them)
+static void make_value(int i, Value<char> &out, Value<char> **pt) {
+    if (i < 3) {
+        out = JSON::Parse(VAL[i], SizeT(strlen(VAL[i])));
+        return;
+    }
+    out               = JSON::Parse(VAL[0], SizeT(strlen(VAL[0])));
+    const char *nm[3] = {"list", "obj", "people"};
+    for (int k = 0; k < 3; k++) {
+        pt[k] = new Value<char>(out[nm[k]]);
+        out[nm[k]].SetPointerToValue(pt[k]);
+    }
+}
+int n_configs() { return (int)(sizeof(TPL) / sizeof(TPL[0])) * 4; }
 
 void setup(int config, int nt) {
-    cfg_tpl   = config / 3;
-    cfg_combo = config % 3; // 0: all threads share value 0; 1: values 0,1,0..; 2: values 2,0,1
+    cfg_tpl   = config / 4;
+    cfg_combo = config % 4; // 0: all threads share value 0; 1: values 0,1,0..; 2: values 2,0,1; 3: all share value 3 (pointer members)
     nthreads  = nt;
     tpl       = TPL[cfg_tpl];
     tpl_len   = SizeT(strlen(tpl));
     cache     = new Array<TagBit>();
     Core::Parse(tpl, tpl_len, *cache);
-    for (int i = 0; i < 3; i++) {
-        vals[i] = new Value<char>(JSON::Parse(VAL[i], SizeT(strlen(VAL[i]))));
+    for (int i = 0; i < 4; i++) {
+        vals[i] = new Value<char>();
+        make_value(i, *vals[i], ptees);
         val_dump0[i] = value_dump(*vals[i]);
     }
     cache_dump0.clear();
     dump_tags(*cache, cache_dump0);
     for (int t = 0; t < nt; t++) {
-        int vi        = cfg_combo == 0 ? 0 : (cfg_combo == 1 ? (t & 1) : ((t + 2) % 3));
+        int vi        = cfg_combo == 0 ? 0 : (cfg_combo == 1 ? (t & 1) : (cfg_combo == 2 ? ((t + 2) % 3) : 3));
         thread_val[t] = vals[vi];
         out[t]        = new StringStream<char>();
         // serial reference: a fresh single render (own cache)
@@ -195,7 +211,7 @@ bool check(std::string &err) {
         err = "the parsed tag cache was modified by rendering";
         return false;
     }
-    for (int i = 0; i < 3; i++) {
+    for (int i = 0; i < 4; i++) {
         if (value_dump(*vals[i]) != val_dump0[i]) {
             err = "value " + std::to_string(i) + " was modified by rendering";
             return false;
@@ -208,24 +224,30 @@ void teardown() {
         delete out[t];
         out[t] = nullptr;
     }
-    for (int i = 0; i < 3; i++) {
+    for (int i = 0; i < 4; i++) {
         delete vals[i];
+    }
+    for (int k = 0; k < 3; k++) {
+        delete ptees[k];
     }
     delete cache;
 }
 std::string describe(int config) {
-    return std::string("template #") + std::to_string(config / 3) + " '" + TPL[config / 3] + "' values " +
-           (config % 3 == 0 ? "shared(0,0,0)" : (config % 3 == 1 ? "(0,1,0)" : "(2,0,1)"));
+    return std::string("template #") + std::to_string(config / 4) + " '" + TPL[config / 4] + "' values " +
+           (config % 4 == 0 ? "shared(0,0,0)" : (config % 4 == 1 ? "(0,1,0)" : (config % 4 == 2 ? "(2,0,1)" : "shared(3,3,3: pointer members)")));
 }
-// sequential histories: actions 0..5 = render value (a/2) into a fresh (even) or pre-filled (odd) stream through the
-// current cache; 6 = replace the cache by a copy of itself and destroy the original; 7 = move the cache
+// sequential histories: actions 0..7 = render value (a/2) into a fresh (even) or pre-filled (odd) stream through the
+// current cache; 8 = replace the cache by a copy of itself and destroy the original; 9 = move the cache.
+// Before the histories: every value rendered into a stream that already holds 0..72 units (every fill state of the
+// stream's capacity steps) must give that text followed by the fresh render.
 uint64_t sequential(int ti, int depth, std::string &err) {
     const char *t   = TPL[ti];
     const SizeT len = SizeT(strlen(t));
-    Value<char> v[3];
-    std::string vd[3], fresh[3];
-    for (int i = 0; i < 3; i++) {
-        v[i]  = JSON::Parse(VAL[i], SizeT(strlen(VAL[i])));
+    Value<char>  v[4];
+    Value<char> *pt[3] = {nullptr, nullptr, nullptr};
+    std::string  vd[4], fresh[4];
+    for (int i = 0; i < 4; i++) {
+        make_value(i, v[i], pt);
         vd[i] = value_dump(v[i]);
         StringStream<char> f;
         Template::Render(t, len, v[i], f);
@@ -233,6 +255,30 @@ uint64_t sequential(int ti, int depth, std::string &err) {
     }
     uint64_t         steps = 0;
     std::vector<int> hist;
+    for (int i = 0; i < 4 && err.empty(); i++) {
+        for (unsigned fill = 0; fill <= 72 && err.empty(); fill++) {
+            StringStream<char> ss;
+            for (unsigned k = 0; k < fill; k++) {
+                ss += char('a' + (k % 26));
+            }
+            const std::string before(ss.First() ? ss.First() : "", ss.Length());
+            Template::Render(t, len, v[i], ss);
+            ++steps;
+            const std::string got(ss.First() ? ss.First() : "", ss.Length());
+            if (got != before + fresh[i]) {
+                err = "rendered into a stream holding " + std::to_string(fill) + " units gives '" + got.substr(0, 200) + "', those units and a fresh render give '" +
+                      (before + fresh[i]).substr(0, 200) + "' (value " + std::to_string(i) + ")";
+            } else if (value_dump(v[i]) != vd[i]) {
+                err = "value " + std::to_string(i) + " was modified by rendering";
+            }
+        }
+    }
+    if (!err.empty()) {
+        for (int k = 0; k < 3; k++) {
+            delete pt[k];
+        }
+        return steps;
+    }
     std::function<bool(int)> rec = [&](int d) -> bool {
         // replay the history on a fresh cache
         Array<TagBit> *c = new Array<TagBit>();
@@ -242,7 +288,7 @@ uint64_t sequential(int ti, int depth, std::string &err) {
         bool ok = true;
         for (size_t k = 0; k < hist.size() && ok; k++) {
             int a = hist[k];
-            if (a < 6) {
+            if (a < 8) {
                 StringStream<char> ss;
                 if (a & 1) {
                     ss += "#pre#";
@@ -258,7 +304,7 @@ uint64_t sequential(int ti, int depth, std::string &err) {
                         ok  = false;
                     }
                 }
-            } else if (a == 6) {
+            } else if (a == 8) {
                 Array<TagBit> *c2 = new Array<TagBit>(*c);
                 delete c;
                 c = c2;
@@ -274,7 +320,7 @@ uint64_t sequential(int ti, int depth, std::string &err) {
                     err = "the tag cache changed (render/copy/move is not pure)";
                     ok  = false;
                 }
-                for (int i = 0; i < 3 && ok; i++) {
+                for (int i = 0; i < 4 && ok; i++) {
                     if (value_dump(v[i]) != vd[i]) {
                         err = "a value was modified by rendering";
                         ok  = false;
@@ -293,7 +339,7 @@ uint64_t sequential(int ti, int depth, std::string &err) {
         if (d == depth) {
             return true;
         }
-        for (int a = 0; a < 8; a++) {
+        for (int a = 0; a < 10; a++) {
             hist.push_back(a);
             bool r = rec(d + 1);
             hist.pop_back();
@@ -304,6 +350,9 @@ uint64_t sequential(int ti, int depth, std::string &err) {
         return true;
     };
     rec(0);
+    for (int k = 0; k < 3; k++) {
+        delete pt[k];
+    }
     return steps;
 }
 int n_templates() { return (int)(sizeof(TPL) / sizeof(TPL[0])); }
